@@ -35,6 +35,28 @@ def parse_range_header(r):
 
 # ---------------------------------------------------------------- oracle
 
+def private_helper(owner, name, params, module=None):
+    """A PRIVATE helper the unit differentials call directly, found by its historical name on the
+    class or -- after it was renamed / moved to module level -- by its parameter names in the
+    class or module.  None when it no longer exists as such (the end-to-end plans still cover it)."""
+    import inspect
+    f = getattr(owner, name, None)
+    if f is not None:
+        return (lambda *a: f(None, *a)) if 'self' in inspect.signature(f).parameters else f
+    for holder in (owner, module):
+        if holder is None:
+            continue
+        for n, g in vars(holder).items():
+            g = getattr(g, '__func__', g)
+            if not callable(g) or not hasattr(g, '__code__'):
+                continue
+            ps = [p for p in inspect.signature(g).parameters if p != 'self']
+            if ps == list(params):
+                takes_self = 'self' in inspect.signature(g).parameters
+                return (lambda *a, g=g: g(None, *a)) if takes_self else g
+    return None
+
+
 def oracle(size, ps, thr=None, cfg_chunk=None):
     """C14 stated on the implementation's own answers for one input; returns a
     description of the failure or None."""
@@ -55,7 +77,9 @@ def oracle(size, ps, thr=None, cfg_chunk=None):
                     e = min(e, size - 1)
                     if s != prev_end + 1 or e < s:
                         return f'range {i} of ({size},{ps}) is bytes {s}-{e}: gap/overlap/empty after byte {prev_end}'
-                if copies.CopySubmissionTask._get_transfer_size(None, ps, i, n, size) != e - s + 1:
+                cps = private_helper(copies.CopySubmissionTask, '_get_transfer_size',
+                                     ('part_size', 'part_index', 'num_parts', 'total_transfer_size'), copies)
+                if cps is not None and cps(ps, i, n, size) != e - s + 1:
                     return f'copy part size {i} of ({size},{ps}) differs from its range length'
                 prev_end = e
             if prev_end != size - 1:
@@ -216,19 +240,30 @@ def run(ctx):
                     c[0], c[1], c[2], c[3] if total_known else None)),
                 hist=lambda c, o: {'fn': 'range-total' if total_known else 'range-open'})
             fails += [('range_parameter', c, i, m) for c, i, m in mism]
-        mism = common.differential(
-            ctx, 'plan', rcases,
-            lambda c: f'cps {hx(c[0])} {hx(c[1])} {hx(c[2])} {hx(c[3])}',
-            lambda c: hx(copies.CopySubmissionTask._get_transfer_size(None, c[0], c[1], c[2], c[3])),
-            hist=lambda c, o: {'fn': 'copy-part-size'})
-        fails += [('copy_part_size', c, i, m) for c, i, m in mism]
+        cps = private_helper(copies.CopySubmissionTask, '_get_transfer_size',
+                             ('part_size', 'part_index', 'num_parts', 'total_transfer_size'), copies)
+        if cps is None:
+            ctx.notes.append('the private copy part-size helper was not found by name or signature: its unit differential is '
+                             'skipped, copy plans are compared end to end')
+        else:
+            mism = common.differential(
+                ctx, 'plan', rcases,
+                lambda c: f'cps {hx(c[0])} {hx(c[1])} {hx(c[2])} {hx(c[3])}',
+                lambda c: hx(cps(c[0], c[1], c[2], c[3])),
+                hist=lambda c, o: {'fn': 'copy-part-size'})
+            fails += [('copy_part_size', c, i, m) for c, i, m in mism]
         # the two private duplicates of the range computation
-        mism = common.differential(
-            ctx, 'plan', rcases,
-            lambda c: f'rp {hx(c[0])} {hx(c[1])} {hx(c[2])} -',
-            lambda c: parse_range_header(legacy.MultipartDownloader._calculate_range_param(None, c[0], c[1], c[2])),
-            hist=lambda c, o: {'fn': 'legacy-range'})
-        fails += [('legacy._calculate_range_param', c, i, m) for c, i, m in mism]
+        lrp = private_helper(legacy.MultipartDownloader, '_calculate_range_param', ('part_size', 'part_index', 'num_parts'), legacy)
+        if lrp is None:
+            ctx.notes.append('the legacy private range helper was not found by name or signature: its unit differential is '
+                             'skipped, legacy download plans are compared end to end')
+        else:
+            mism = common.differential(
+                ctx, 'plan', rcases,
+                lambda c: f'rp {hx(c[0])} {hx(c[1])} {hx(c[2])} -',
+                lambda c: parse_range_header(lrp(c[0], c[1], c[2])),
+                hist=lambda c, o: {'fn': 'legacy-range'})
+            fails += [('legacy._calculate_range_param', c, i, m) for c, i, m in mism]
         # scaled adjuster: all (min,max,maxparts) small, all chunk/size
         acases = []
         rng = ctx.rng('adjw')
